@@ -1,4 +1,257 @@
-// Server-level histories on real Unix sockets (filled in later).
+// Server-level histories on real Unix sockets: the harness owns every client endpoint, drives
+// HttpServer through its public API in one thread, and prints what the model's world
+// (coq/model/Server.v, coq/run/Run.v domain 9) predicts for the same history.
+use crate::tree::Arg;
+use crate::util::*;
+use micro_http::{HttpServer, ServerError, ServerRequest};
+use std::io::{Read, Write};
+use std::os::unix::io::AsRawFd;
+use std::os::unix::net::UnixStream;
+use std::path::PathBuf;
+use vmm_sys_util::eventfd::EventFd;
+
+struct Client {
+    stream: Option<UnixStream>,
+}
+
+fn count_fds() -> usize {
+    std::fs::read_dir("/proc/self/fd").map(|d| d.count()).unwrap_or(0)
+}
+
+fn ready(server: &HttpServer) -> bool {
+    let mut pfd = libc::pollfd {
+        fd: server.epoll().as_raw_fd(),
+        events: libc::POLLIN,
+        revents: 0,
+    };
+    // SAFETY: poll on one valid pollfd with a zero timeout.
+    let n = unsafe { libc::poll(&mut pfd, 1, 0) };
+    n > 0 && (pfd.revents & libc::POLLIN) != 0
+}
+
+fn serr_s(e: &ServerError) -> String {
+    match e {
+        ServerError::ShutdownEvent => "Shutdown".to_string(),
+        ServerError::ConnectionError(micro_http::ConnectionError::InvalidWrite) => "InvalidWrite".to_string(),
+        ServerError::ConnectionError(c) => format!("Connection:{}", conn_err_s(c)),
+        ServerError::IOError(e) => format!("IOError:{:?}", e.kind()),
+        ServerError::Overflow => "Overflow".to_string(),
+        ServerError::Underflow => "Underflow".to_string(),
+        ServerError::ServerFull => "ServerFull".to_string(),
+    }
+}
+
+fn poll_once(
+    pre: &str,
+    server: &mut HttpServer,
+    outstanding: &mut Vec<ServerRequest>,
+) -> (String, bool) {
+    if !ready(server) {
+        return (format!("{}poll blocked", pre), false);
+    }
+    match server.requests() {
+        Ok(reqs) => {
+            let n = reqs.len();
+            let mut v: Vec<(String, ServerRequest)> = reqs
+                .into_iter()
+                .map(|r| (request_s(&r.request, ""), r))
+                .collect();
+            v.sort_by(|a, b| a.0.as_bytes().cmp(b.0.as_bytes()));
+            let mut line = format!("{}poll Ok {}", pre, n);
+            for (s, r) in v {
+                line.push_str(" | ");
+                line.push_str(&s);
+                outstanding.push(r);
+            }
+            (line, true)
+        }
+        Err(e) => (format!("{}poll Err({})", pre, serr_s(&e)), false),
+    }
+}
+
+pub fn run_case(a: &Arg, out: &mut Vec<String>, dir: &str) {
+    let l = a.l();
+    let id = l[1].n();
+    let flags = l[2].n();
+    let ops = l[3].l();
+    let path = PathBuf::from(format!("{}/s{}-{}.sock", dir, std::process::id(), id));
+    let _ = std::fs::remove_file(&path);
+    let base_fds = count_fds();
+    let mut server = HttpServer::new(&path).expect("server");
+    server.start_server().expect("start");
+    let mut kill: Option<EventFd> = None;
+    if flags & 1 == 1 {
+        let k = EventFd::new(libc::EFD_NONBLOCK).expect("eventfd");
+        server.add_kill_switch(k.try_clone().expect("clone")).expect("add kill switch");
+        kill = Some(k);
+    }
+    let fixed_fds = count_fds() - base_fds; // listener, epoll (+ two eventfd handles)
+    let mut clients: std::collections::HashMap<u64, Client> = std::collections::HashMap::new();
+    let mut outstanding: Vec<ServerRequest> = vec![];
+    let mut killed = false;
+    for (i, op) in ops.iter().enumerate() {
+        let o = op.l();
+        let pre = format!("srv {} {} ", id, i);
+        match o[0].n() {
+            0 => {
+                let c = o[1].n();
+                let s = UnixStream::connect(&path).expect("connect");
+                s.set_nonblocking(true).unwrap();
+                clients.insert(c, Client { stream: Some(s) });
+                out.push(format!("{}conn {}", pre, c));
+            }
+            1 => {
+                let c = o[1].n();
+                let data = o[2].b();
+                let n = match clients.get_mut(&c).and_then(|cl| cl.stream.as_mut()) {
+                    Some(s) => {
+                        s.set_nonblocking(false).unwrap();
+                        let r = match s.write_all(data) {
+                            Ok(()) => data.len(),
+                            Err(_) => 0,
+                        };
+                        s.set_nonblocking(true).unwrap();
+                        r
+                    }
+                    None => 0,
+                };
+                out.push(format!("{}send {} {}", pre, c, n));
+            }
+            2 => {
+                let c = o[1].n();
+                if let Some(cl) = clients.get_mut(&c) {
+                    cl.stream = None;
+                }
+                out.push(format!("{}close {}", pre, c));
+            }
+            3 | 4 => {
+                let c = o[1].n();
+                if let Some(s) = clients.get_mut(&c).and_then(|cl| cl.stream.as_mut()) {
+                    let how = if o[0].n() == 3 {
+                        std::net::Shutdown::Write
+                    } else {
+                        std::net::Shutdown::Read
+                    };
+                    let _ = s.shutdown(how);
+                }
+                out.push(format!("{}{} {}", pre, if o[0].n() == 3 { "shutwr" } else { "shutrd" }, c));
+            }
+            5 => {
+                let c = o[1].n();
+                let mut got: Vec<u8> = vec![];
+                let mut status = "open";
+                if let Some(s) = clients.get_mut(&c).and_then(|cl| cl.stream.as_mut()) {
+                    let mut buf = [0u8; 65536];
+                    loop {
+                        match s.read(&mut buf) {
+                            Ok(0) => {
+                                status = "eof";
+                                break;
+                            }
+                            Ok(n) => got.extend_from_slice(&buf[..n]),
+                            Err(e) if e.kind() == std::io::ErrorKind::WouldBlock => break,
+                            Err(e) if e.kind() == std::io::ErrorKind::Interrupted => continue,
+                            Err(_) => {
+                                // reset by a server-side close with unread input: disconnected
+                                status = "eof";
+                                break;
+                            }
+                        }
+                    }
+                }
+                out.push(format!("{}drain {} {} {}", pre, c, hex(&got), status));
+            }
+            6 => {
+                let (line, _) = poll_once(&pre, &mut server, &mut outstanding);
+                out.push(line);
+            }
+            7 => {
+                if outstanding.is_empty() {
+                    out.push(format!("{}resp none", pre));
+                } else {
+                    let idx = (o[1].n() % outstanding.len() as u64) as usize;
+                    let req = outstanding.remove(idx);
+                    let resp = crate::response_of(&o[2]);
+                    let mut slot = Some(resp);
+                    let sr = req.process(|_r| slot.take().unwrap());
+                    match server.respond(sr) {
+                        Ok(()) => out.push(format!("{}resp Ok", pre)),
+                        Err(e) => out.push(format!("{}resp Err({})", pre, serr_s(&e))),
+                    }
+                }
+            }
+            12 => {
+                if outstanding.is_empty() {
+                    out.push(format!("{}resp none", pre));
+                } else {
+                    let idx = (o[1].n() % outstanding.len() as u64) as usize;
+                    let req = outstanding.remove(idx);
+                    let sr = req.process(|r| {
+                        let mut resp = micro_http::Response::new(micro_http::Version::Http11, micro_http::StatusCode::OK);
+                        let u = uri_from_debug(&format!("{:?}", r.uri()));
+                        let mut body = b"echo:".to_vec();
+                        body.extend_from_slice(&u);
+                        resp.set_body(micro_http::Body::new(body));
+                        resp
+                    });
+                    match server.respond(sr) {
+                        Ok(()) => out.push(format!("{}resp Ok", pre)),
+                        Err(e) => out.push(format!("{}resp Err({})", pre, serr_s(&e))),
+                    }
+                }
+            }
+            8 => {
+                server.flush_outgoing_writes();
+                out.push(format!("{}flush", pre));
+            }
+            9 => {
+                if let Some(k) = kill.as_ref() {
+                    k.write(1).expect("eventfd write");
+                    killed = true;
+                }
+                out.push(format!("{}kill", pre));
+            }
+            10 => {
+                server.set_payload_max_size(o[1].n() as usize);
+                out.push(format!("{}limit", pre));
+            }
+            11 => {
+                for _ in 0..o[1].n() {
+                    let (line, again) = poll_once(&pre, &mut server, &mut outstanding);
+                    out.push(line);
+                    if !again {
+                        break;
+                    }
+                }
+            }
+            _ => out.push(format!("{}?", pre)),
+        }
+    }
+    if killed {
+        out.push(format!("srv {} end killed", id));
+    } else {
+        let st = server.verif_conn_states();
+        let mut v: Vec<String> = st
+            .iter()
+            .map(|(_fd, s, infl, pend, _d)| format!("{}:{}:{}", s, infl, *pend as u8))
+            .collect();
+        v.sort();
+        let open_clients = clients.values().filter(|c| c.stream.is_some()).count();
+        let fds = count_fds() - base_fds;
+        let expect = fixed_fds + open_clients + st.len();
+        let leak = if fds != expect {
+            format!(" FDLEAK(held={},expected={})", fds, expect)
+        } else {
+            String::new()
+        };
+        out.push(format!("srv {} end nconn={} conns=[{}]{}", id, st.len(), v.join(","), leak));
+    }
+    drop(outstanding);
+    drop(server);
+    drop(clients);
+    let _ = std::fs::remove_file(&path);
+}
+
 pub fn main(_args: &[String]) {
-    eprintln!("server harness not built yet");
+    eprintln!("use the default mode: server cases are domain 9");
 }
